@@ -329,7 +329,7 @@ def install(reg: Registry):
     # loop 0: copy the nodes
     def inv0(c):
         o, h, G, memo = c.old, c.h, c.self, c.memo
-        C = c.lt('copied_attackgraph')
+        C = c.ret().t      # the graph under construction (the local the function returns: robust against renaming)
         k = z3.Const('k!i0', Val)
         x = A('x!i0')
         y = Mh(h, memo, x)
@@ -347,7 +347,7 @@ def install(reg: Registry):
     # loop 1: parents / children of the copies
     def inv1(c):
         o, h, G, memo = c.old, c.h, c.self, c.memo
-        C = c.lt('copied_attackgraph')
+        C = c.ret().t      # the graph under construction (the local the function returns: robust against renaming)
         return [('copy-graph', copy_graph_facts(c, h, C)),
                 ('copy-containers', z3.And(own_cont(o, h, C, 'nodes', CLS_LIST), own_cont(o, h, C, 'attackers', CLS_LIST),
                                            *[own_cont(o, h, C, f, CLS_DICT) for f in IDX])),
@@ -370,7 +370,7 @@ def install(reg: Registry):
     # loop 2: compromised_by of the copies
     def inv2(c):
         o, h, G, memo = c.old, c.h, c.self, c.memo
-        C = c.lt('copied_attackgraph')
+        C = c.ret().t      # the graph under construction (the local the function returns: robust against renaming)
         return [('copy-graph', copy_graph_facts(c, h, C)),
                 ('copy-containers', z3.And(own_cont(o, h, C, 'nodes', CLS_LIST), own_cont(o, h, C, 'attackers', CLS_LIST),
                                            *[own_cont(o, h, C, f, CLS_DICT) for f in IDX])),
